@@ -175,6 +175,29 @@ def C18(c):
              "every kind x every length 0..=256, malformed numerals, random strings over the relevant alphabet")
 
 
+def C17(c):
+    c.proofs()
+    exe = need_harness(c)
+    if exe:
+        r = run_suite(exe, "methods", c.seed, c.tier, "C17-methods", ["--methods", "collapse,heikin"])
+        c.add_suite(r, sig_method)
+        r2 = run_suite(exe, "renko", c.seed, c.tier, "C17-renko")
+        c.add_suite(r2, sig_method)
+        c.coverage["renko_emissions"] = r2.get("stats", {}).get("emissions", 0)
+    return c.finish(
+        level="proof",
+        trusted=TRUSTED_COMMON + NUMERIC_TRUST + [
+            "Renko: the floating-point chain is tied per step (from the implementation's serialized pre-state one exact model "
+            "step must give the same decision, brick count up to a quotient within 64 ulp of an integer, base line, boundaries, "
+            "volume); the emitted blocks and the aggregate view are checked against the property on the implementation's own output",
+            "batch collapse_timeframe (both modes) is compared Rust-vs-Rust with the streaming method and a from-scratch fold inside the harness",
+        ],
+        rule="CollapseTimeframe periods {1,2,3,5,7,24,60} and HeikinAshi on valid candle streams (walk, flat regimes, plateaus, "
+             "zero-volume, high==low); Renko: brick sizes from machine epsilon to 0.999999 x sources x start prices, 400-1500 adaptive "
+             "steps whose prices are chosen from the serialized state: exactly on / one ulp below / above next_block_upper/lower, exact "
+             "multiples of the brick, multi-brick jumps, reversals; rejected brick sizes (0, eps/2, 1, >1, negative, NaN, inf)")
+
+
 def replay(prop, path):
     """re-run a replay file: real code through the harness, then the driver"""
     text = open(path).read()
@@ -201,4 +224,4 @@ def replay(prop, path):
     return 1 if res["mismatches"] or res.get("error") else 0
 
 
-PROPS = {"C01": C01, "C02": C02, "C03": C03, "C04": C04, "C14": C14, "C16": C16, "C18": C18}
+PROPS = {"C01": C01, "C02": C02, "C03": C03, "C04": C04, "C14": C14, "C16": C16, "C18": C18, "C17": C17}
